@@ -70,3 +70,12 @@ SIGS = {
     'api_graph_cc': (['nat', L(T('nat', 'nat'))], L(T('nat', 'nat'))),
     'api_refines': ([L('nat'), L('nat')], 'bool'),
 }
+
+
+# plug-in signature tables: harness/sigs_c??.py each define SIGS (name -> (arg types, result type)); names are api_cNN_*
+import glob as _glob, importlib as _importlib, os as _os
+for _f in sorted(_glob.glob(_os.path.join(_os.path.dirname(_os.path.abspath(__file__)), 'sigs_c[0-9][0-9].py'))):
+    _m = _importlib.import_module(_os.path.basename(_f)[:-3])
+    for _k, _v in _m.SIGS.items():
+        assert _k not in SIGS, 'duplicate oracle entry point ' + _k
+        SIGS[_k] = _v
